@@ -25,6 +25,7 @@ class Scheduler:
         self._files: dict = {}
         self.tid: dict = {}
         self.installed = False
+        self.focus = None
 
     # ---- monitoring plumbing
     def install(self):
@@ -33,13 +34,23 @@ class Scheduler:
         ev = m.events.LINE if self.gran == "line" else m.events.INSTRUCTION
         self._ev = ev
         m.register_callback(TOOL, ev, self._on_line if self.gran == "line" else self._on_instr)
-        m.set_events(TOOL, ev)
+        self._extra = 0
+        if self.gran == "line":
+            # generator / comprehension bodies loop on one source line: their resumptions and yields are steps
+            # too (each of them is a point where the interpreter can switch threads)
+            self._extra = m.events.PY_RESUME | m.events.PY_YIELD
+            m.register_callback(TOOL, m.events.PY_RESUME, self._on_resume)
+            m.register_callback(TOOL, m.events.PY_YIELD, self._on_yield)
+        m.set_events(TOOL, ev | self._extra)
         self.installed = True
 
     def uninstall(self):
         m = sys.monitoring
         m.set_events(TOOL, 0)
         m.register_callback(TOOL, self._ev, None)
+        if self._extra:
+            m.register_callback(TOOL, m.events.PY_RESUME, None)
+            m.register_callback(TOOL, m.events.PY_YIELD, None)
         m.free_tool_id(TOOL)
         self.installed = False
 
@@ -60,6 +71,24 @@ class Scheduler:
                 self._step(w, code, line)
         return None
 
+    def _on_resume(self, code, offset):
+        if not self._mine(code):
+            return sys.monitoring.DISABLE
+        if self.active:
+            w = self.tid.get(threading.get_ident())
+            if w is not None:
+                self._step(w, code, ("resume", offset))
+        return None
+
+    def _on_yield(self, code, offset, retval):
+        if not self._mine(code):
+            return sys.monitoring.DISABLE
+        if self.active:
+            w = self.tid.get(threading.get_ident())
+            if w is not None:
+                self._step(w, code, ("yield", offset))
+        return None
+
     def _on_instr(self, code, offset):
         if not self._mine(code):
             return sys.monitoring.DISABLE
@@ -76,6 +105,15 @@ class Scheduler:
         k = self.steps[w]
         if self.trace is not None:
             self.trace.append((w, code.co_name, where))
+        if self.focus is not None:
+            fn = code.co_filename
+            hit = self._focus_files.get(fn)
+            if hit is None:
+                hit = self._focus_files[fn] = self.focus in fn.replace(os.sep, "/")
+            if hit:
+                self.fsteps[w] += 1
+                if (w, self.fsteps[w]) in self.preempt_focus:
+                    self._handoff(w)
         if (w, k) in self.preempt:
             self._handoff(w)
         if self.turn != w:
@@ -109,9 +147,15 @@ class Scheduler:
                         self.cv.notify_all()
                         break
 
-    def run(self, thunks, first=0, preempt=(), trace=False, timeout=20.0):
-        """Run the thunks concurrently under the schedule.  Returns dict(results, steps, degraded, ...)."""
+    def run(self, thunks, first=0, preempt=(), trace=False, timeout=20.0, focus=None, preempt_focus=()):
+        """Run the thunks concurrently under the schedule.  Returns dict(results, steps, degraded, ...).
+        `focus` names a path fragment: steps in files whose path contains it are counted separately and
+        `preempt_focus` places preemption points on that count (the K-th step inside those files)."""
         n = len(thunks)
+        self.focus = focus
+        self._focus_files = {}
+        self.fsteps = [0] * n
+        self.preempt_focus = set(preempt_focus)
         self.steps = [0] * n
         self.done = [False] * n
         self.preempt = set(preempt)
@@ -152,4 +196,4 @@ class Scheduler:
             if t.is_alive():
                 hung = True
         self.active = False
-        return {"results": results, "steps": list(self.steps), "degraded": self.degraded, "switches": self.switches, "hung": hung, "trace": self.trace}
+        return {"results": results, "steps": list(self.steps), "degraded": self.degraded, "switches": self.switches, "hung": hung, "trace": self.trace, "focus_steps": list(self.fsteps)}
